@@ -1289,6 +1289,8 @@ sexp sexp_string_index_to_cursor (sexp ctx, sexp self, sexp_sint_t n, sexp str, 
   limit = sexp_string_size(str);
   i = sexp_unbox_fixnum(index);
   j = 0;
+  if (i < 0)
+    return sexp_user_exception(ctx, self, "string-index->cursor: index out of range", index);
 #if SEXP_USE_STRING_INDEX_TABLE
   if (i > SEXP_STRING_INDEX_TABLE_CHUNK_SIZE) {
     charlens = sexp_string_charlens(str);
